@@ -105,11 +105,15 @@ def machine_spec(draw, profile="general", tier="quick"):
         pools, multi, over = 1, True, True
         ram = draw(st.sampled_from([100, 64, 30, 256]))
         parts = list(draw(st.sampled_from([(0.6, 0.4), (0.5, 0.3, 0.2), (0.7, 0.2, 0.1), (0.4, 0.35, 0.25), (0.5, 0.5)])))
-        eps = draw(st.sampled_from([5e-4, 2e-5, 1e-3, -5e-4, 4e-4, 0.01]))
+        eps = draw(st.sampled_from([5e-4, 2e-5, 0.0, 1e-3, -5e-4, 0.0, 4e-4, 0.01]))
         ticks = draw(st.integers(2, 6))
         pipes = []
+        whole = [float(round(f * ram)) for f in parts[:-1]]
+        whole.append(float(ram - sum(whole)))
         for i, f in enumerate(parts):
             memv = round(f * ram, 6) + (eps if i == len(parts) - 1 else 0.0)
+            if eps == 0.0:
+                memv = whole[i]           # whole GB adding up to exactly the capacity: no kill is justified
             pipes.append({"ops": [[{"io": 0, "cp": ticks + i, "law": "const", "mem": ["abs", memv]}]]})
         pipes.append(draw(pipe_spec("oom")))
         npipes = len(pipes)
@@ -650,6 +654,8 @@ class Episode:
                 out.label("pool_level_kill")
                 if len(m.last_victims) >= 2:
                     out.label("two_victims_one_tick")
+            if getattr(m, "last_exact_fit", False):
+                out.label("usage_exactly_at_capacity")
             if m.last_crossing:
                 out.label("capacity_crossed")
                 if m.last_eligible >= 3 and m.last_order_differs:
